@@ -141,3 +141,26 @@ func ScenarioClasses(v *Verdict, sc *Scenario) {
 	}
 	v.Class(fmt.Sprintf("convs=%d", len(sc.Convs)))
 }
+
+// ConsumedFromFailedExec reports a parameter that received a value minted by
+// a function execution that returned an error: whatever a failing body
+// returns alongside its error must never be used.
+func ConsumedFromFailedExec(w *World, all []Event) string {
+	failed := map[[2]int]bool{}
+	for _, ev := range all {
+		if ev.Err != nil {
+			failed[[2]int{ev.Func, ev.Exec}] = true
+		}
+	}
+	if len(failed) == 0 {
+		return ""
+	}
+	for _, ev := range all {
+		for _, a := range ev.Args {
+			if org, ok := w.Origin(a.Tok); ok && !org.Input && failed[[2]int{org.Func, org.Exec}] {
+				return fmt.Sprintf("f%d parameter %s received #%d, an output of execution #%d of f%d, which returned an error", ev.Func, a.L, a.Tok, org.Exec, org.Func)
+			}
+		}
+	}
+	return ""
+}
